@@ -431,6 +431,8 @@ func wrapsAtoi(f *ssa.Function) bool {
 			n++
 		} else if strings.HasPrefix(name, "fmt.") || strings.HasPrefix(name, "errors.") {
 			continue // building an error message
+		} else if g := ci.Common().StaticCallee(); g != nil && g.Blocks != nil && len(g.Blocks) == 1 && g.Signature.Results().Len() == 1 && isBoolType(g.Signature.Results().At(0).Type()) {
+			continue // a one-expression predicate (isSet(s))
 		} else {
 			return false
 		}
@@ -774,4 +776,9 @@ func ruleTabCLI(c *Ctx, r *Rep) {
 			}
 		}
 	}
+}
+
+func isBoolType(t types.Type) bool {
+	b, ok := t.Underlying().(*types.Basic)
+	return ok && b.Kind() == types.Bool
 }
